@@ -6,6 +6,7 @@ mod sig;
 mod s_enc;
 mod s_cnt;
 mod s_rice;
+mod s_src;
 
 use std::io::{BufRead, Write};
 
@@ -22,6 +23,7 @@ fn run_line(line: &str) -> String {
         "FAIL" => s_enc::run_fail(&idc, &restc),
         "CNT" => s_cnt::run(&idc, &restc),
         "RICE" => s_rice::run(&idc, &restc),
+        "SRC" => s_src::run(&idc, &restc),
         _ => format!("{} unknown-stream", idc),
     });
     match r { Ok(s) => s, Err(_) => format!("{} panic", id) }
@@ -42,6 +44,7 @@ fn main() {
                 "FAIL" => s_enc::gen_fail(seed, n, &mut out),
                 "CNT" => s_cnt::gen(seed, n, &mut out),
                 "RICE" => s_rice::gen(seed, n, &mut out),
+                "SRC" => s_src::gen(seed, n, &mut out),
                 _ => panic!("unknown stream"),
             }
             print!("{}", out);
